@@ -51,7 +51,7 @@ func GenProgram(b Bias) *rapid.Generator[Program] {
 			minL = 1
 		}
 		p := Program{
-			LaneSize:  rapid.OneOf(rapid.IntRange(minL, 4), rapid.IntRange(minL, 4), rapid.IntRange(minL, 4), rapid.IntRange(minL, 4), rapid.SampledFrom([]int{8, 31, 32, 33, 40, 64, 65})).Draw(t, "laneSize"),
+			LaneSize:  rapid.OneOf(rapid.IntRange(minL, 4), rapid.IntRange(minL, 4), rapid.IntRange(minL, 4), rapid.IntRange(minL, 4), rapid.SampledFrom([]int{8, 31, 32, 33, 40, 64, 65, 255, 256, 257, 300, 1025})).Draw(t, "laneSize"),
 			QueueSize: rapid.IntRange(0, 3).Draw(t, "queueSize"),
 			Timeout:   rapid.SampledFrom([]time.Duration{time.Millisecond, 100 * time.Millisecond, 100 * time.Millisecond, time.Second, time.Second, 0, -time.Second}).Draw(t, "timeout"),
 			LateGates: rapid.IntRange(0, 3).Draw(t, "lateGates") == 0,
